@@ -12,7 +12,9 @@ Streams (correspondence = real code vs Lean model `Model/ObjModel` through Drive
   getitem    DirectObjectAccess.py__simple_getitem__(index, safe) vs pySimpleGetitem
   mixedgetitem MixedObject.py__simple_getitem__ vs mixedSimpleGetitem
   iterlist   DirectObjectAccess.py__iter__list vs pyIterList
-  pyiter     CompiledValue.py__iter__ vs compiledPyIter ; bool: CompiledValue.py__bool__ vs pyBool
+  hasiter    DirectObjectAccess.has_iter vs hasIter (answer and: nothing is called)
+  pyiter     CompiledValue.py__iter__ vs compiledPyIter ; bool: CompiledValue.py__bool__ {safe, unsafe} and
+             DirectObjectAccess.py__bool__() (default = safe) vs pyBool
   e2e_attr   Interpreter(`obj.name`).infer(): set of user __get__ calls vs filterGetInfer trace
 Direct oracle (never the model)
   oracle     generated object graphs x expressions x {complete, infer, goto, help, get_signatures}
@@ -35,16 +37,18 @@ MODELS = ['ObjModel', 'ObjCfg']
 MANIFEST = dict(
     text='Lean model of CPython attribute lookup (object/type __getattribute__ order, with the trace of user '
          '__get__ calls), of jedi\'s getattr_static backport, is_allowed_getattr, the CompiledValueFilter._get '
-         'decision table, values(), py__simple_getitem__/py__iter__list/has_iter/py__bool__ guards; type lists '
-         'and guard expressions are translator-extracted. Theorems: the static lookup returns stored entries only '
-         'and chooses the entry getattr chooses (instances: full; classes: unless a metaclass data descriptor '
-         'shadows the name, counter-witness); safe mode never produces a real name for a user-__get__ attribute of '
-         'an instance (full) or of a class/bases (full), metaclass descriptors: false on the code as it is '
-         '(kernel-checked counter-witnesses, known findings); item access / py__iter__list only on listed builtin '
-         'containers (full); has_iter / py__bool__ execute user __iter__/__bool__/__len__ (counter-witnesses, '
-         'findings, proposed fixes); names offered = dir(obj) exactly. Tie: translator + 12 correspondence streams '
-         'on generated live object graphs + direct oracle with counters inside every user special method over all '
-         'Interpreter query methods x {safe, unsafe}.',
+         'decision table, values(), py__simple_getitem__/py__iter__list/has_iter/py__bool__ and the static '
+         'special-method lookup they use; type lists, guard expressions and lookup orders are translator-extracted, '
+         'the shape of the hand-transcribed functions is translator-checked. Theorems (all FULL): the static lookup '
+         'returns stored entries only and chooses the entry getattr chooses (instances and classes, including a '
+         'metaclass data descriptor shadowing a class attribute); safe mode never produces a real name for a '
+         'user-__get__ attribute of an instance, of a class/bases or of the metaclass; item access / py__iter__list '
+         'only on listed builtin containers; has_iter + py__iter__list run no user code at all; safe py__bool__ '
+         'calls bool(obj) only when a builtin slot wrapper (or nothing) decides; names offered = dir(obj) exactly. '
+         'The former counter-witness inputs are kernel-checked witnesses of the repaired behaviour. Tie: translator '
+         '+ 13 correspondence streams on generated live object graphs + direct oracle with counters inside every '
+         'user special method over all Interpreter query methods x {safe, unsafe}; the repaired defects are '
+         'deterministic regression inputs (corpus/C13).',
     note='Modelled not verified: CPython descriptor protocol (validated by stream getattr), __getattribute__/'
          '__getattr__/__dir__/__class__ properties (outside the trace alphabet; counted by the oracle), metaclass '
          '__eq__ in `type(obj) in ALLOWED_GETITEM_TYPES`, dict subclasses overriding values()/keys().',
@@ -97,18 +101,16 @@ def ev_names(events, reg):
 
 
 def load_own_known(ctx):
-    """known_findings.d/C13.json is merged into known_findings.json by tools/mkknown.py at commit
-    time; until then (and in worktrees) read it directly so the check is self-contained."""
+    """known_findings.d/C13.json is the source of truth for this property (tools/mkknown.py merges it
+    into known_findings.json at commit time): use exactly its `findings`, so that an entry moved to
+    `fixed` stops excusing the defect as soon as it is moved, not only after the merge."""
     p = os.path.join(common.VERIF, 'known_findings.d', 'C13.json')
     try:
         with open(p, encoding='utf-8') as f:
             d = json.load(f)
     except FileNotFoundError:
         return
-    have = {k['id'] for k in ctx.known}
-    for k in d.get('findings', []):
-        if k['id'] not in have and k.get('property') == 'C13':
-            ctx.known.append(k)
+    ctx.known = [k for k in d.get('findings', []) if k.get('property') == 'C13']
 
 
 # ------------------------------------------------------------------ stream: decision table
@@ -373,6 +375,61 @@ class IterProp:
     __iter__ = mkprop()
 class IterNone:
     __iter__ = None
+    def __getitem__(self, k):
+        _hit('__getitem__', self)
+        raise IndexError
+class IterND:
+    __iter__ = ND()
+class IterDD:
+    __iter__ = DD()
+class ItSeq:
+    def __iter__(self):
+        _hit('__iter__', self)
+        return iter([1])
+    def __getitem__(self, k):
+        _hit('__getitem__', self)
+        raise IndexError
+class InstIter:
+    pass
+def _inst_iter():
+    _hit('__iter__', inst_iter)
+    return iter([1])
+inst_iter = InstIter()
+vars(inst_iter)['__iter__'] = _inst_iter
+vars(inst_iter)['__bool__'] = _inst_iter
+class BoolNone:
+    __bool__ = None
+class BoolProp:
+    __bool__ = mkprop()
+class LenProp:
+    __len__ = mkprop()
+class BoolND:
+    __bool__ = ND()
+class IntLen(int):
+    def __len__(self):
+        _hit('__len__', self)
+        return 0
+class ListBool(list):
+    def __bool__(self):
+        _hit('__bool__', self)
+        return True
+class MetaProto(type):
+    def __iter__(cls):
+        _hit('__iter__', cls)
+        return iter([1])
+    def __bool__(cls):
+        _hit('__bool__', cls)
+        return False
+    def __len__(cls):
+        _hit('__len__', cls)
+        return 0
+    def __getitem__(cls, k):
+        _hit('__getitem__', cls)
+        return 'item'
+class WithMeta(metaclass=MetaProto):
+    pass
+def _genf():
+    yield K()
 conts = {
  'list': [K(), 2, 3], 'tuple': (K(), 2), 'dict': {0: K(), 'k': 1}, 'str': 'abc', 'bytes': b'abc',
  'bytearray': bytearray(b'abc'), 'set': {1, 2}, 'frozenset': frozenset([1]), 'range': range(3),
@@ -380,6 +437,10 @@ conts = {
  'Seq': Seq(), 'SeqChild': SeqChild(), 'It': It(), 'ItAnn': ItAnn(), 'Gen': Gen(), 'Truthy': Truthy(),
  'Sized': Sized(), 'Both': Both(), 'Nothing': Nothing(), 'IterProp': IterProp(), 'IterNone': IterNone(),
  'biglist': list(range(40)),
+ 'IterND': IterND(), 'IterDD': IterDD(), 'ItSeq': ItSeq(), 'InstIter': inst_iter, 'BoolNone': BoolNone(),
+ 'BoolProp': BoolProp(), 'LenProp': LenProp(), 'BoolND': BoolND(), 'IntLen': IntLen(3), 'ListBool': ListBool(),
+ 'WithMeta': WithMeta(), 'WithMetaClass': WithMeta, 'generator': _genf(), 'emptylist': [], 'emptydict': {},
+ 'zero': 0, 'none': None, 'float': 0.5, 'slice': slice(1), 'K': K(), 'Kclass': K,
 }
 '''
 
@@ -398,7 +459,6 @@ def stream_containers(ctx, env, rec, reqs, cases, reg):
 
     for label, obj in conts.items():
         ty = G.describe_ty(obj, reg)
-        tgt = G.describe(obj, ['__iter__'], reg)
         base = {'container': label}
         proto = lambda evs: [k for k, o, s in evs if k in FORBIDDEN]   # noqa: E731
         for safe in (True, False):
@@ -432,9 +492,11 @@ def stream_containers(ctx, env, rec, reqs, cases, reg):
                           {'compiled_path': out, 'events': proto(rec.take())}))
         st = env.state(False)
         acc = DirectObjectAccess(st, obj)
+        islot = G.slot_of(type(obj), '__iter__')
+        gslot = G.slot_of(type(obj), '__getitem__')
         annotated = False
         try:
-            annotated = type(obj).__iter__.__annotations__.get('return') is not None
+            annotated = vars_lookup(type(obj), '__iter__').__annotations__.get('return') is not None
         except AttributeError:
             pass
         rec.reset()
@@ -444,17 +506,19 @@ def stream_containers(ctx, env, rec, reqs, cases, reg):
         except Exception as e:
             shape = 'raised:' + type(e).__name__
         evs = rec.take()
-        reqs.append({'op': 'iterlist', 'ty': ty, 'target': tgt, 'annotated': annotated})
+        reqs.append({'op': 'iterlist', 'ty': ty, 'iter': islot, 'annotated': annotated})
         cases.append(('iterlist', dict(base), {'shape': shape, 'len': len(obj) if hasattr(type(obj), '__len__')
                                                and type(obj).__module__ == 'builtins' else None,
                                                'events': [k if k != 'property' else '__get__' for k in proto(evs)]}))
         rec.reset()
+        res = None
         try:
-            acc.has_iter()
+            res = acc.has_iter()
         except Exception as e:
             ctx.count('raised', (label,), nontrivial=False, bucket='has_iter:%s@%s' % common.exc_site(e))
-        reqs.append({'op': 'hasiter', 'ty': ty, 'target': tgt})
-        cases.append(('hasiter', dict(base), {'events': [k if k != 'property' else '__get__' for k in proto(rec.take())]}))
+        reqs.append({'op': 'hasiter', 'iter': islot, 'getitem': gslot})
+        cases.append(('hasiter', dict(base), {'result': res, 'events': [k if k != 'property' else '__get__'
+                                                                         for k in proto(rec.take())]}))
         for unsafe in (False, True):
             st = env.state(unsafe)
             value = compiled_value(st, obj)
@@ -463,16 +527,41 @@ def stream_containers(ctx, env, rec, reqs, cases, reg):
                 list(value.py__iter__())
             except Exception as e:
                 ctx.count('raised', (label,), nontrivial=False, bucket='py__iter__:%s@%s' % common.exc_site(e))
-            reqs.append({'op': 'pyiter', 'ty': ty, 'target': tgt, 'annotated': annotated})
+            reqs.append({'op': 'pyiter', 'ty': ty, 'iter': islot, 'annotated': annotated})
             cases.append(('pyiter', dict(base, unsafe=unsafe),
                           {'events': [k if k != 'property' else '__get__' for k in proto(rec.take())]}))
             rec.reset()
+            res = 'raised'
             try:
-                value.py__bool__()
+                res = value.py__bool__()
             except Exception as e:
                 ctx.count('raised', (label,), nontrivial=False, bucket='py__bool__:%s@%s' % common.exc_site(e))
-            reqs.append({'op': 'bool', 'ty': ty})
-            cases.append(('bool', dict(base, unsafe=unsafe), {'events': proto(rec.take())}))
+            reqs.append({'op': 'bool', 'ty': ty, 'safe': not unsafe})
+            # safe mode: every forbidden counter counts; unsafe mode: the model's alphabet for bool(obj)
+            # is __bool__ / __len__ (a property stored under those names runs as well, unmodelled)
+            cases.append(('bool', dict(base, unsafe=unsafe, via='CompiledValue.py__bool__'),
+                          {'reached': res is not None, 'result': repr(res),
+                           'events': [k if k != 'property' else '__get__' for k in proto(rec.take())
+                                      if not unsafe or k in ('__bool__', '__len__')]}))
+        # the access method itself: its default must be the safe behaviour
+        rec.reset()
+        res = 'raised'
+        try:
+            res = acc.py__bool__()
+        except Exception as e:
+            ctx.count('raised', (label,), nontrivial=False, bucket='py__bool__:%s@%s' % common.exc_site(e))
+        reqs.append({'op': 'bool', 'ty': ty, 'safe': True})
+        cases.append(('bool', dict(base, unsafe=False, via='DirectObjectAccess.py__bool__()'),
+                      {'reached': res is not None, 'result': repr(res),
+                       'events': [k if k != 'property' else '__get__' for k in proto(rec.take())]}))
+
+
+def vars_lookup(t, name):
+    """raw class-dictionary entry along the MRO (AttributeError if there is none)"""
+    for k in t.__mro__:
+        if name in vars(k):
+            return vars(k)[name]
+    raise AttributeError(name)
 
 
 # ------------------------------------------------------------------ direct oracle (e2e)
@@ -744,7 +833,7 @@ def stream_dunder(ctx, env, rec):
             continue      # e.g. __qualname__ must be a str
         names = {'b': ns['b'], 'lst': ns['lst']}
         env.set(False)
-        for expr in ('b', 'b.', 'b.x', 'b(', 'b()', 'b[0]', 'for q in b:\n    q.', 'lst[0].x'):
+        for expr in ('b', 'b.', 'b.x', 'b(', 'b()', 'b[0]', 'for q in b:\n    q.', 'lst[0].x', 'q = b or 1\nq.'):
             for method in METHODS:
                 rec.reset()
                 try:
@@ -873,9 +962,16 @@ def compare(ctx, cases, answers):
                 ok = shape == ('nonempty:%d' % want if want else 'refused')
             ok = ok and [e.split(':')[0] for e in ans['events']] == impl['events']
             bucket = m
-        elif stream in ('hasiter', 'pyiter', 'bool'):
+        elif stream == 'pyiter':
             ok = [e.split(':')[0] for e in ans] == impl['events']
             bucket = ','.join(impl['events']) or '-'
+        elif stream == 'hasiter':
+            ok = ans['result'] == impl['result'] and ans['events'] == impl['events']
+            bucket = '%s/%s' % (impl['result'], ','.join(impl['events']) or '-')
+        elif stream == 'bool':
+            ok = ans['reached'] == impl['reached'] and ans['events'] == impl['events']
+            bucket = '%s/%s/%s' % ('unsafe' if case['unsafe'] else 'safe',
+                                   'reached' if impl['reached'] else 'refused', ','.join(impl['events']) or '-')
         ctx.count(stream, json.dumps(case, sort_keys=True, default=str), nontrivial=bool(nontrivial), bucket=bucket,
                   sample={k: v for k, v in case.items() if k != 'graph'} if isinstance(case, dict) else case)
         direct_checks(ctx, stream, case, impl)
@@ -977,8 +1073,8 @@ def run(ctx):
                  how='settings.allow_unsafe_interpreter_executions = <setting>; '
                      'jedi.Interpreter("", [{}])._inference_state.allow_unsafe_executions')
     if ctx.model_ok:
-        answers = common.run_driver_parallel('C13', reqs + [{'op': 'flags'}])
-        ctx.notes.append('code-shape flags read by the translator: %s' % json.dumps(answers[-1]))
+        answers = common.run_driver_parallel('C13', reqs + [{'op': 'config'}])
+        ctx.notes.append('py__bool__ configuration read by the translator: %s' % json.dumps(answers[-1]))
         compare(ctx, cases, answers[:-1])
     else:
         ctx.notes.append('model did not build: correspondence skipped, oracle only')
@@ -991,6 +1087,10 @@ def run(ctx):
         'subclasses overriding values()/keys(): not generated, not modelled',
         'whether a property return annotation infers to values (annValues) and `name in dir(obj)` (inDir) are '
         'parameters of the model, read from the real run',
+        'what the static special-method lookup finds (Slot: absent / builtin descriptor type / python function / '
+        'None / other) is classified by the harness from the class dictionaries; special methods of builtin '
+        'types are slot wrappers or absent (Ty.slot of `.builtin`): sampled by streams bool / hasiter on the '
+        'container zoo',
     ]
 
 
